@@ -9,19 +9,60 @@ import numpy as np
 
 from harness.common import frac, err_kind, deep_compare
 
-DISABLED = True
-
 PID = "C31"
 THEOREMS = [
+    "PorepyVerif.C31.ccw_eq_exact_outside_band",
+    "PorepyVerif.C31.ccw_in_band_default",
+    "PorepyVerif.C31.ccw_int_exact",
+    "PorepyVerif.C31.ccw_polygon_iff_area_pos",
+    "PorepyVerif.C31.point_in_polygon_kernel_inside",
+    "PorepyVerif.C31.point_in_polygon_separated_outside",
+    "PorepyVerif.C31.point_in_convex_polygon_outside",
+    "PorepyVerif.C31.point_in_convex_polygon_spec",
+    "PorepyVerif.C31.collinear_spec",
+    "PorepyVerif.C31.planar_exact",
+    "PorepyVerif.C31.planar_spec",
+    "PorepyVerif.C31.half_space_spec",
+    "PorepyVerif.C31.sort_point_pairs_chain",
+    "PorepyVerif.C31.sort_point_pairs_cycle_complete",
 ]
 LEAN_MODULES = ["PorepyVerif.C31.Props"]
 AUDIT = "PorepyVerif/C31/Audit.lean"
 DRIVER = "PorepyVerif/C31/Driver.lean"
 N = {"quick": 700, "thorough": 20000}
-RULE = ""
-TRUSTED = []
-EXPLANATION = ""
-ASSUMPTIONS = []
+RULE = ("one call per case of is_ccw_polyline / is_ccw_polygon / point_in_polygon / point_in_cell / points_are_collinear / points_are_planar / "
+        "point_inside_half_space_intersection / polygon_hanging_nodes / sort_point_pairs / sort_multiple_point_pairs (compared with the Lean model "
+        "AND checked by the exact oracle) or of point_in_polyhedron / PointInPolyhedron.winding_number / sort_point_plane / sort_points_on_line / "
+        "sort_triangle_edges / half_space_interior_point (exact oracle only). Coordinates are small integers or dyadics (exact in binary64). "
+        "Polygons: convex hulls, star-shaped, rectilinear non-convex templates (L, U, comb, stairs, C, plus) and a dented quad, both orientations, "
+        "random start vertex; query points: vertices, points on edges, points on the EXTENSION of edges, half-integer lattice points. "
+        "Polyhedra: tetrahedra, boxes (quadrilateral faces, Delaunay path), triangular prisms, prisms over the non-convex polygons (ear-clipped, "
+        "conforming), optionally sheared by an invertible integer matrix, faces in random order/orientation; query points: vertices, points on faces/edges, "
+        "convex combinations, half-integer lattice points. Point sets: exactly collinear/planar, one point off (first, middle, LAST), duplicates, "
+        "first two points equal, random; tolerances 0, 1e-8, 1e-5 (is_ccw_polyline also 1/2, 3, 40 so that the band is hit). Half spaces: 0-6 planes, "
+        "points on the boundary, malformed shapes. Line pairs: simple cycles and paths over distinct node ids with random column order and flips, "
+        "both modes, with/without check_circular, an extra data row (colliding or not with node ids), malformed: two components, branching, wrong mode, "
+        "repeated lines. non-trivial = not (convex polygon with one query point / fewer than 3 lines / tetrahedron / fewer than 3 points); "
+        "distinct = distinct cases")
+TRUSTED = [
+    "oracle-only (no Lean model): point_in_polyhedron and PointInPolyhedron (solid angles via arctan2, scipy Delaunay, uniquify_point_set, "
+    "sort_triangle_edges), half_space_interior_point (scipy linprog), sort_point_plane (rotation + arctan2), sort_points_on_line (rotation + argsort), "
+    "sort_triangle_edges; their oracle is exact rational geometry (ray casting with exact intersection tests, exact angular order, exact line parameter)",
+    "modelled, not verified (correspondence only): point_in_polygon for points inside a non-convex polygon that are neither in its kernel nor separated "
+    "from it by a line (the theorems cover kernel points, separated points and hence all of the convex case), point_in_cell, polygon_hanging_nodes, "
+    "sort_multiple_point_pairs (numba), compute_normal's argmax selection, the non-circular start selection of sort_point_pairs (completeness is proved for cycles only)",
+    "modelled, not verified: numpy masking/broadcasting glue, np.roll/np.sign/np.bincount/np.isin, norms compared as squares (sqrt monotone), np.isclose/np.allclose with rtol=0",
+]
+EXPLANATION = ("CORE (partial): the predicates are modelled branch for branch over exact rationals and proved equal to the exact geometric answer outside the "
+               "tolerance band: is_ccw_polyline (orientation sign; integer inputs: any tol<1), is_ccw_polygon (= sign of shoelace area), point_in_polygon "
+               "(True on the kernel, False when separated by a line, exact for convex polygons off the edge lines), points_are_collinear / points_are_planar "
+               "(integer inputs: True iff exactly collinear / in the plane, under an explicit bound tol^2*scale<1), half-space membership (iff all inequalities), "
+               "sort_point_pairs (every returned result is a valid chain: permutation with flips, consecutive columns share a node, closes when checked; a simple "
+               "cycle is never rejected). Everything involving arctan2 / LP / Delaunay (polyhedron, plane/line sorting) and non-convex point_in_polygon is tied by "
+               "correspondence and an exact rational oracle only. The model follows the property where the code deviates (4 open findings).")
+ASSUMPTIONS = ["inputs are small integers / dyadics, so the rational model and binary64 agree exactly on every compared (discrete) output",
+               "query points of point_in_cell / polyhedra are either exactly on the boundary (documented answer) or at distance >= ~1e-2 from it; "
+               "collinear/planar inputs are exactly degenerate or integer-far from degenerate (no input inside a tolerance band except where the band is the subject)"]
 
 KINDS = [
     ("ccw_polyline", 8), ("ccw_polygon", 6), ("pip", 16), ("cell", 6), ("collinear", 9), ("planar", 9),
@@ -412,7 +453,50 @@ def _query_points_3d(rng, v, faces, k):
     return out
 
 
+def _in_band(case):
+    """True if a generated case is not exactly degenerate but closer to degenerate than 1e3 * tol
+    (planar: any admissible normal; hanging: nearly parallel consecutive edges). Such cases are dropped."""
+    if case["kind"] == "planar":
+        pts = [[F(x) for x in p] for p in case["pts"]]
+        n = len(pts)
+        c = [sum(p[k] for p in pts) / n for k in range(3)]
+        v = [vsub(p, c) for p in pts]
+        if case["normal"] is not None:
+            normals = [[F(x) for x in case["normal"]]]
+        else:
+            normals = [cross3(v[i], v[j]) for i in range(n) for j in range(i + 1, n)]
+            normals = [N for N in normals if N != [0, 0, 0]]
+        for N in normals:
+            s = sum(vdot(N, w) ** 2 for w in v) / vdot(N, N)
+            if 0 < s < F(1, 10**6):
+                return True
+        return False
+    if case["kind"] == "hanging":
+        p = [[F(x) for x in q] + [F(0)] * (3 - len(q)) for q in case["p"]]
+        e = case["edges"]
+        m = len(e)
+        for i in range(m):
+            a = vsub(p[e[i][1]], p[e[i][0]])
+            b = vsub(p[e[(i + 1) % m][1]], p[e[(i + 1) % m][0]])
+            cr = cross3(a, b)
+            if cr != [0, 0, 0] and vdot(cr, cr) < F(1, 10**5) * vdot(a, a) * vdot(b, b):
+                return True
+        return False
+    return False
+
+
 def gen_case(rng, tier):
+    while True:
+        c = _gen_case(rng, tier)
+        if not _in_band(c):
+            return c
+        DROPPED[0] += 1
+
+
+DROPPED = [0]
+
+
+def _gen_case(rng, tier):
     kinds, weights = zip(*KINDS)
     kind = rng.choices(kinds, weights)[0]
     big = tier == "thorough"
@@ -614,7 +698,7 @@ def gen_case(rng, tier):
             dirs[(a // g, b // g)] = (a, b)
         ab = list(dirs.values())
         rng.shuffle(ab)
-        if len(ab) < 3 or all(cross2(ab[0], x) == 0 for x in ab):
+        if len(ab) < 3 or all(cross2(vsub(x, ab[0]), vsub(y, ab[0])) == 0 for x in ab for y in ab):  # the points must span the plane
             ab = [(1, 0), (0, 1), (-1, -1)]
         pts = [[o[c] + a * u[c] + b * v[c] for c in range(3)] for a, b in ab]
         with_normal = rng.random() < 0.5
@@ -641,6 +725,8 @@ def gen_case(rng, tier):
     if kind == "hs_interior":
         a, b, c = rng.randint(1, 4), rng.randint(1, 4), rng.randint(1, 4)
         o = [rng.randint(-3, 3) for _ in range(3)]
+        if rng.random() < 0.3:  # the origin strictly inside the box
+            o = [-F(rng.randint(1, 3), 4) * e for e in (a, b, c)]
         n = [[1, 0, 0], [-1, 0, 0], [0, 1, 0], [0, -1, 0], [0, 0, 1], [0, 0, -1]]
         x0 = [[o[0] + a, o[1], o[2]], o, [o[0], o[1] + b, o[2]], o, [o[0], o[1], o[2] + c], o]
         if rng.random() < 0.5:  # cut a corner off with a skew plane through three edge midpoints
@@ -992,12 +1078,21 @@ def oracle(case):
         gc = _graph_class(lines)
         circ, check = case["circular"], case["check"] and case["circular"]
         must_work = (gc == "cycle" and circ) or (gc == "path" and not circ)
+        if case["extra"] is not None:
+            # the extra data row must not influence the sorting: same outcome as without it
+            try:
+                res0, exc0 = _call(dict(case, extra=None)), None
+            except Exception as e0:  # noqa
+                res0, exc0 = None, e0
+            same = type(exc) is type(exc0) and (exc is not None or (np.array_equal(res0[0], res[0][:2]) and np.array_equal(res0[1], res[1])))
+            if not same:
+                d = lambda r, e: type(e).__name__ if e is not None else [list(map(int, r[0][0])), list(map(int, r[0][1]))]
+                return fail(f"lines {lines} with the extra row {case['extra']}, is_circular={circ}: outcome {d(res, exc)} differs from the outcome "
+                            f"without the extra row {d(res0, exc0)}", "extra-row-changes-result")
         if exc is not None:
             if not isinstance(exc, (AssertionError, IndexError)):
                 return fail(f"raised {exc!r} for {lines}", "raises")
             if must_work:
-                if case["extra"] is not None:
-                    return fail(f"lines {lines} (a {gc}) with the extra row {case['extra']}, is_circular={circ}: raised {type(exc).__name__}", "extra-row-changes-result")
                 return fail(f"lines {lines} form a {gc}, is_circular={circ}: raised {type(exc).__name__}", "valid-input-rejected")
             return None
         s, ind = res
@@ -1008,15 +1103,6 @@ def oracle(case):
         if case["extra"] is not None:
             if [int(x) for x in s[2]] != [case["extra"][int(i)] for i in ind]:
                 return fail(f"lines {lines} extra {case['extra']}: the extra row {list(s[2])} is not permuted by sort_ind {list(ind)}", "extra-row-not-permuted")
-            # the extra row must not influence the sorting
-            from porepy.geometry import sort_points
-            try:
-                s2, ind2 = sort_points.sort_point_pairs(np.array(lines, dtype=int).T, check_circular=case["check"], is_circular=circ)
-                same = np.array_equal(s2, s[:2]) and np.array_equal(ind2, ind)
-            except Exception:
-                same = False
-            if not same:
-                return fail(f"lines {lines} with the extra row {case['extra']}, is_circular={circ}: result differs from the result without the extra row", "extra-row-changes-result")
         return None
     if kind == "sort_multi":
         if exc:
@@ -1109,9 +1195,12 @@ def oracle(case):
                 seen.add((a, b))
         return None
     if kind == "hs_interior":
-        if exc:
-            return fail(f"raised {exc!r} for n={case['n']} x0={case['x0']}", "raises")
         n, x0 = _P(case["n"]), _P(case["x0"])
+        if exc:
+            # is the origin strictly inside all half spaces (after orienting the normals outwards)?
+            sg = -1 if case["flip"] else 1
+            origin_inside = all(sg * vdot(vsub([F(0)] * 3, b), a) < 0 for a, b in zip(n, x0))
+            return fail(f"raised {exc!r} for n={case['n']} x0={case['x0']}", "origin-strictly-inside-rejected" if origin_inside else "raises")
         x = [F(float(t)) for t in res]
         d = [vdot(vsub(x, b), a) for a, b in zip(n, x0)]
         # strictly inside all half spaces (of the flipped normals when the given ones point inwards)
@@ -1156,6 +1245,7 @@ def stats(cases, impl_outs):
         if "cls" in c:
             kk = f"{k}:{c['cls']}"
             out[kk] = out.get(kk, 0) + 1
+    out["dropped_near_tolerance_band"] = DROPPED[0]
     out["impl_errors"] = sum(1 for o in impl_outs if isinstance(o, dict) and "err" in o)
     out["true_answers"] = sum(1 for o in impl_outs if isinstance(o, dict) and (o.get("r") is True or (isinstance(o.get("r"), list) and any(x is True for x in o["r"]))))
     return out
